@@ -34,6 +34,12 @@ def logl_value(kind, x):
     if kind == 'wrap':          # peak across the periodic boundary of x0
         d = np.minimum(np.abs(x[0] - 0.02), 1 - np.abs(x[0] - 0.02))
         return float(-0.5 * (d / 0.05) ** 2 - 0.5 * np.sum(((x[1:] - 0.5) / 0.1) ** 2))
+    if kind == 'ridge_edge':   # a ridge spanning all of x0 plus a peak hugging the face x0 = 0
+        ridge = -0.5 * ((x[1] - 0.3) / 0.02) ** 2 - 0.5 * np.sum(((x[2:] - 0.5) / 0.2) ** 2)
+        peak = 3.0 - 0.5 * ((x[0] - 0.02) / 0.02) ** 2 - 0.5 * ((x[1] - 0.8) / 0.03) ** 2 - 0.5 * np.sum(((x[2:] - 0.5) / 0.2) ** 2)
+        return float(np.logaddexp(ridge, peak))
+    if kind == 'corner':       # a peak in a corner of the cube
+        return float(-0.5 * np.sum((x / 0.06) ** 2))
     raise ValueError(kind)
 
 
